@@ -112,6 +112,11 @@ Proof. revert i; induction l as [|h t IH]; intros [|i]; simpl; auto. Qed.
 
 Definition zlen {A} (l : list A) : Z := Z.of_nat (length l).
 
+(** linear-time list reversal (List.rev is quadratic; strings of 64 KiB are in scope) *)
+Definition frev {A} (l : list A) : list A := rev_append l [].
+Lemma frev_rev {A} (l : list A) : frev l = rev l.
+Proof. unfold frev. rewrite rev_append_rev. apply app_nil_r. Qed.
+
 (** ASCII helpers *)
 Definition c0 : N := 48.   (* '0' *)
 Definition ceq : N := 61.  (* '=' *)
